@@ -516,7 +516,14 @@ func (g *gen) stepClone(pi int) {
 	a := g.lastAnn[pj][pfx]
 	a.NextHop = 0x0a000000 | uint32(pc.Addr[3])
 	a.Communities = append([]uint32(nil), a.Communities...)
-	switch r.Intn(5) {
+	switch r.Intn(7) {
+	case 5:
+		// only ATOMIC_AGGREGATE differs
+		a.AtomicAggr = !a.AtomicAggr
+	case 6:
+		// only an unrecognised optional transitive attribute differs
+		a.Unknown = append([]UnknownAttr(nil), a.Unknown...)
+		a.Unknown = append(a.Unknown, UnknownAttr{Flags: 0xc0, Type: 210 + uint8(r.Intn(3)), Value: []byte{byte(r.Intn(256))}})
 	case 4:
 		// only the OTC attribute differs (accepted from a neighbour without a role relation)
 		o := uint32(64500 + r.Intn(3))
